@@ -13,18 +13,20 @@ type Var struct {
 
 // Case is one unit of work for a worker
 type Case struct {
-	ID        string   `json:"id"`
-	Op        string   `json:"op"` // "prog" or an API op name
-	Block     string   `json:"block,omitempty"`
-	HasStdin  bool     `json:"has_stdin,omitempty"`
-	Stdin     []byte   `json:"stdin,omitempty"`
-	StdinType string   `json:"stdin_type,omitempty"`
-	Vars      []Var    `json:"vars,omitempty"`
+	ID        string `json:"id"`
+	Op        string `json:"op"` // "prog" or an API op name
+	Block     string `json:"block,omitempty"`
+	HasStdin  bool   `json:"has_stdin,omitempty"`
+	Stdin     []byte `json:"stdin,omitempty"`
+	StdinType string `json:"stdin_type,omitempty"`
+	Vars      []Var  `json:"vars,omitempty"`
 	// YieldSeeds: the block is executed once per entry; 0 = perturbation off
 	YieldSeeds []uint64 `json:"yield_seeds,omitempty"`
 	Events     bool     `json:"events,omitempty"`
-	FIDCheck   bool     `json:"fid_check,omitempty"`
-	TimeoutMs  int      `json:"timeout_ms,omitempty"`
+	// ReadVars: variables of the program's scope read back (as strings) after it ran
+	ReadVars  []string `json:"read_vars,omitempty"`
+	FIDCheck  bool     `json:"fid_check,omitempty"`
+	TimeoutMs int      `json:"timeout_ms,omitempty"`
 	// IdleMs: wait after the program so that deferred goroutines fire
 	IdleMs int             `json:"idle_ms,omitempty"`
 	Args   json.RawMessage `json:"args,omitempty"`
@@ -43,15 +45,17 @@ type Ev struct {
 
 // Run is the observation of one execution of a program
 type Run struct {
-	Stdout   []byte   `json:"stdout"`
-	Stderr   []byte   `json:"stderr"`
-	Exit     int      `json:"exit"`
-	Err      string   `json:"err,omitempty"`
-	Sig      uint64   `json:"sig,omitempty"`
-	Hits     uint64   `json:"hits,omitempty"`
-	Events   []Ev     `json:"events,omitempty"`
-	OutType  string   `json:"out_type,omitempty"`
-	FIDsLeft []string `json:"fids_left,omitempty"`
+	Stdout   []byte            `json:"stdout"`
+	Stderr   []byte            `json:"stderr"`
+	Exit     int               `json:"exit"`
+	Err      string            `json:"err,omitempty"`
+	Sig      uint64            `json:"sig,omitempty"`
+	Hits     uint64            `json:"hits,omitempty"`
+	Events   []Ev              `json:"events,omitempty"`
+	OutType  string            `json:"out_type,omitempty"`
+	FIDsLeft []string          `json:"fids_left,omitempty"`
+	Vars     map[string]string `json:"vars,omitempty"`
+	VarErrs  map[string]string `json:"var_errs,omitempty"`
 }
 
 // Result is what a worker returns for a case
